@@ -1,0 +1,7 @@
+//go:build !verif
+// +build !verif
+
+package flate
+
+// verifDecoded is a no-op outside verification builds (see reader_verif.go).
+func (f *decompressor) verifDecoded(inBefore, bitsBefore int, err error) {}
